@@ -12,6 +12,7 @@ import (
 // When the limit is reached, new requests receive 503 Service Unavailable.
 func connLimit(maxConns int, next http.Handler) http.Handler {
 	sem := make(chan struct{}, maxConns)
+	verifSem(sem)
 	return http.HandlerFunc(func(w http.ResponseWriter, r *http.Request) {
 		select {
 		case sem <- struct{}{}:
@@ -33,6 +34,7 @@ func rateLimit(rps, burst, cacheSize int, next http.Handler) http.Handler {
 	if err != nil {
 		panic(err)
 	}
+	verifCache(cache)
 
 	rateL := rate.Limit(rps)
 	getLimiter := func(ip string) *rate.Limiter {
